@@ -408,6 +408,8 @@ gen_job_impl(Rng &r, const Suite &s, const GenOpts &o, bool force, uint32_t flen
         j.key_len = s.key_len;
         j.seed = r.next();
         j.key_seed = r.next();
+        // segmented entry points (SGL jobs/streams, init/update/finalize): 3 in 5 put every segment in its own object
+        j.scatter = ((j.seed >> 20) % 5) < 3 ? (uint8_t) (1 + (j.seed >> 24) % 250) : 0;
         j.iv_len = pick_iv_len(r, s);
         j.iv_kind = (o.special_iv && r.chance(0.35)) ? (uint8_t) r.range(1, IV_NKINDS - 1) : (uint8_t) IV_RANDOM;
         j.tag_len = pick_tag_len(r, s.hash);
